@@ -1,6 +1,7 @@
 package main
 
 import (
+	"go/token"
 	"go/types"
 	"sort"
 	"strings"
@@ -298,6 +299,80 @@ func baseAlloc(v ssa.Value) ssa.Value {
 	}
 }
 
+// pureAccumulation: the loop has no effects at all and every loop-carried value
+// is updated by a commutative, associative operator (sums, counts, bit-ors).
+func pureAccumulation(w *World, header *ssa.BasicBlock, blocks map[*ssa.BasicBlock]bool) string {
+	for b := range blocks {
+		for _, in := range b.Instrs {
+			switch x := in.(type) {
+			case *ssa.Store, *ssa.MapUpdate, *ssa.Send, *ssa.Go, *ssa.Defer, *ssa.Return, *ssa.Panic:
+				return ""
+			case ssa.CallInstruction:
+				n := calleeName(x)
+				if n != "builtin.len" && n != "builtin.cap" {
+					return ""
+				}
+			}
+		}
+	}
+	n := 0
+	for _, in := range header.Instrs {
+		phi, ok := in.(*ssa.Phi)
+		if !ok {
+			continue
+		}
+		for i, e := range phi.Edges {
+			if !blocks[header.Preds[i]] {
+				continue // initial value
+			}
+			if e == ssa.Value(phi) {
+				continue
+			}
+			bo, ok := e.(*ssa.BinOp)
+			if !ok {
+				return ""
+			}
+			switch bo.Op {
+			case token.ADD, token.OR, token.AND, token.XOR, token.MUL:
+			default:
+				return ""
+			}
+			if !reachesPhi(bo, phi, map[ssa.Value]bool{}) {
+				return ""
+			}
+			n++
+		}
+	}
+	if n == 0 {
+		return ""
+	}
+	return "the loop only accumulates with commutative operators (no stores, calls or exits)"
+}
+
+func reachesPhi(v ssa.Value, phi *ssa.Phi, seen map[ssa.Value]bool) bool {
+	if v == ssa.Value(phi) {
+		return true
+	}
+	if seen[v] {
+		return false
+	}
+	seen[v] = true
+	switch x := v.(type) {
+	case *ssa.BinOp:
+		switch x.Op {
+		case token.ADD, token.OR, token.AND, token.XOR, token.MUL:
+			return reachesPhi(x.X, phi, seen) || reachesPhi(x.Y, phi, seen)
+		}
+	case *ssa.Phi:
+		for _, e := range x.Edges {
+			if reachesPhi(e, phi, seen) {
+				return true
+			}
+		}
+	}
+	return false
+}
+
 // collectThenSort: the loop only appends to one slice which is sorted right after the loop.
 func collectThenSort(w *World, rng *ssa.Range, blocks map[*ssa.BasicBlock]bool) string {
 	var appendCall *ssa.Call
@@ -478,6 +553,9 @@ func detSites(w *World, fns map[*ssa.Function]bool) []detSite {
 					if header != nil {
 						blocks := loopBlocks(header)
 						s.Proved = collectThenSort(w, x, blocks)
+					if s.Proved == "" {
+						s.Proved = pureAccumulation(w, header, blocks)
+					}
 						s.What = "range " + desc + " {" + effectFingerprint(w, blocks) + "}"
 					} else {
 						s.What = "range " + desc
